@@ -81,6 +81,12 @@ Theorem C04_nonvacuous :
   (wf_replay ex_r10 = true /\ res_is_ok (game_start (r_start ex_r10)) = true /\ finished ex_r10 = true).
 Proof. exact (conj ex_r37_wf (conj ex_r25_wf ex_r10_wf)). Qed.
 
+From Peppi Require Import Gen.PortOccupancySrc Proofs.PortOccupancyLayout.
+(* ---- port_occupancy (src/game/mod.rs), regenerated: one entry per player of the Game Start in order, follower iff the character
+   is ICE_CLIMBERS *)
+Theorem C04_port_occupancy_from_source : forall s, port_occupancy s = port_occupancy_tbl s.
+Proof. exact port_occupancy_from_source. Qed.
+
 Print Assumptions C04_parsed_frames.
 Print Assumptions C04_ids.
 Print Assumptions C04_slots.
@@ -97,3 +103,4 @@ Print Assumptions C04_pre_arm_from_source.
 Print Assumptions C04_frame_start_arm_from_source.
 Print Assumptions C04_frame_end_arm_from_source.
 Print Assumptions C04_game_end_arm_from_source.
+Print Assumptions C04_port_occupancy_from_source.
